@@ -671,9 +671,14 @@ async fn seq_client<C: CacheFactory>(dl: Arc<DataLoader<SimLoader, C>>, cache: C
                 Op::Load { kt: kt as u8, keys, one: false }
             }
             7 | 8 => {
-                feed_n += 1;
-                let k = draw(4) as u8;
-                Op::Feed { kt: kt as u8, items: vec![(k, feed_value(feed_n, k))] }
+                // one to three items per feed (fed in the given order)
+                let mut items = vec![];
+                for _ in 0..1 + draw(3) {
+                    feed_n += 1;
+                    let k = draw(4) as u8;
+                    items.push((k, feed_value(feed_n, k)));
+                }
+                Op::Feed { kt: kt as u8, items }
             }
             9 => Op::ClearOne { kt: kt as u8, key: draw(4) as u8 },
             10 => Op::Clear { kt: kt as u8 },
